@@ -33,6 +33,9 @@ def fail_controls(fire):
     yield ("arg", ("eq", fire), ("failstop",))
     yield ("arg", ("gt", fire), ("failstop",))
     yield ("arg", ("no",), ("failstop",))
+    yield ("and", ("eq", fire), ("failstop",))
+    yield ("ornot", ("eq", fire), ("fail",))
+    yield ("and", ("gt", fire), ("fail",))
 
 
 def programs(rng):
